@@ -10,6 +10,11 @@ import (
 // stderr of a dead worker, the file CheckPanic dumps before os.Exit).
 
 const tarsMark = "TarsGo/tars"
+const genMark = "checks/c05/c05arrays." // code generated at check time by the working-tree tars2go
+
+func isSubject(ln string) bool {
+	return strings.Contains(ln, tarsMark) || strings.Contains(ln, genMark)
+}
 
 // funcLines returns the function lines (not the file:line lines) of a traceback.
 func funcLines(trace string) []string {
@@ -35,6 +40,9 @@ func stripArgs(fn string) string {
 // signatures: generated code collapses to generated.<Method>, everything else
 // is <package>.<Type>.<Method>.
 func siteClass(fn string) string {
+	if g := strings.Index(fn, genMark); g >= 0 {
+		fn = "github.com/TarsCloud/TarsGo/tars/protocol/res/" + fn[g+len("checks/c05/"):] // classified like the checked-in generated code
+	}
 	i := strings.Index(fn, tarsMark)
 	if i < 0 {
 		return "unknown"
@@ -84,7 +92,7 @@ func faultSite(trace string) string {
 		if strings.HasPrefix(ln, "goroutine ") && start > 0 {
 			break // next goroutine of an all-goroutine dump
 		}
-		if strings.Contains(ln, tarsMark) && !background(ln) {
+		if isSubject(ln) && !background(ln) {
 			return siteClass(ln)
 		}
 	}
@@ -109,7 +117,7 @@ func recursionSite(trace string) string {
 	count := map[string]int{}
 	best, bestN := "unknown", 0
 	for _, ln := range funcLines(trace) {
-		if !strings.Contains(ln, tarsMark) || background(ln) {
+		if !isSubject(ln) || background(ln) {
 			continue
 		}
 		s := siteClass(ln)
@@ -138,7 +146,7 @@ func hangSite(trace string) string {
 			}
 			continue
 		}
-		if !strings.Contains(ln, tarsMark) || background(ln) {
+		if !isSubject(ln) || background(ln) {
 			continue
 		}
 		s := siteClass(ln)
